@@ -176,7 +176,6 @@ NetOf(gh, a) == IF Has(gh.net, "a", a) THEN Get(gh.net, "a", a).v ELSE 0
 C07_CollateralLedger(s, gh) ==
     \A a \in NodeAccs(s) : a \notin ClientAccs(s) =>
         DebtOf(s, a) - NetOf(gh, a) = SumSeq(CompletedShardsOf(s, a), LAMBDA sh : sh.pledge)
-
 \* C07: per provider, the balance moves exactly against its collateral records net of recorded debt
 Owed(s, a) == (IF HasPledge(s, a) THEN PledgeOf(s, a).capPl + PledgeOf(s, a).shPl ELSE 0) - DebtOf(s, a)
 C07_PledgeBackToPledger(x) ==
@@ -440,6 +439,40 @@ C16_HistoryChain(x) ==
             \/ (Len(c2) = Len(m.commits) + 1 /\ SubSeq(c2, 1, Len(m.commits)) = m.commits)
             \/ (Len(c2) = Len(m.commits) /\ Len(c2) > 0 /\ SubSeq(c2, 1, Len(c2) - 1) = SubSeq(m.commits, 1, Len(c2) - 1)
                 /\ Kind(x) = "Complete" /\ HasOrder(x.pre, x.ev.order) /\ OrderOf(x.pre, x.ev.order).op = 2)
+
+\* an order commits its version ONCE, at the moment it completes: the history of a model changes only on the delivery of a
+\* shard of an order of that model that was not completed before the step (a late replica of an order that has long been
+\* committed, arriving while the NEXT update is in flight, commits nothing), no order appears twice among the model's orders,
+\* and the step leaves the in-flight mark alone unless it completes, abandons or creates the order the mark names.
+\* StaleFirstVersion(x, m): the step delivers a shard of a still unfinished FIRST-VERSION order (no base: its commit is the data
+\* id) of a model that already has a committed history - the loser of a race between two creations of one data id, completing
+\* late. What the code does then is judged by C16_FirstVersionOnce (known finding KF-C16-stale-first-version), everything else
+\* by C16_CommittedOnce.
+StaleFirstVersion(x, m) ==
+    /\ Kind(x) = "Complete" /\ HasOrder(x.pre, x.ev.order)
+    /\ LET o == OrderOf(x.pre, x.ev.order) IN
+          o.data = m.data /\ o.status # OCompleted /\ o.commit = o.data /\ m.commits # <<>> /\ o.id # m.order
+HistoryStepOk(x, m) ==
+    LET m2 == MetaOf(x.post, m.data) IN
+    /\ (m2.commits # m.commits =>
+            /\ Kind(x) = "Complete" /\ HasOrder(x.pre, x.ev.order)
+            /\ OrderOf(x.pre, x.ev.order).data = m.data
+            /\ OrderOf(x.pre, x.ev.order).status # OCompleted)
+    /\ (NoDup(m.orders) => NoDup(m2.orders))
+    \* a model waiting for an update (in-flight mark set) is settled only by a step that completes or removes that very order
+    \* (a model with a committed history: two first versions of one NEW data id racing each other are not updates)
+    /\ (m.status # MComplete /\ m2.status = MComplete /\ m2.created = m.created /\ HasOrder(x.pre, m.order) /\ m.commits # <<>> =>
+            \/ ~HasOrder(x.post, m.order)
+            \/ OrderOf(x.post, m.order).status = OCompleted
+            \/ OrderOf(x.post, m.order).status # OrderOf(x.pre, m.order).status)
+C16_CommittedOnce(x) ==
+    \A i \in 1..Len(x.pre.metas) : LET m == x.pre.metas[i] IN
+        HasMeta(x.post, m.data) /\ ~StaleFirstVersion(x, m) => HistoryStepOk(x, m)
+\* the late loser of a creation race leaves the model's history, latest version and in-flight mark alone
+C16_FirstVersionOnce(x) ==
+    \A i \in 1..Len(x.pre.metas) : LET m == x.pre.metas[i] IN
+        HasMeta(x.post, m.data) /\ StaleFirstVersion(x, m) =>
+            LET m2 == MetaOf(x.post, m.data) IN m2.commits = m.commits /\ m2.commit = m.commit /\ m2.status = m.status
 
 \* C17: DID registry integrity
 IsKeyDid(cfg, d) == InSeq(d, cfg.didOrder)
